@@ -14,7 +14,7 @@ KickViol(e) ==
     LET q == e.q  o == Owner(MS, q) cfg == "/nq=" \o Str(nq) IN
     IF ~e.workers_ok THEN {"C17/worker-thread-terminated/after-kick"}
     ELSE IF o = 0 THEN (IF e.ndispatch # 0 THEN {"C17/unowned-queue-dispatched"} ELSE {})
-    ELSE IF e.ndispatch # 1 THEN {"C17/dispatches-per-kick=" \o Str(e.ndispatch)}
+    ELSE IF e.ndispatch # 1 THEN {"C17/dispatches-per-kick=" \o (IF e.ndispatch > 2 THEN "many" ELSE Str(e.ndispatch))}
     ELSE LET d == e.dispatches[1] IN
          (IF d.thread # o - 1 THEN {"C17/wrong-worker-thread"} ELSE {})
          \cup (IF d.event # Rank(MS[o], q) THEN {"C17/wrong-event-id"} ELSE {})
@@ -28,7 +28,7 @@ ListenerViol(e) ==
     IF (e.status = "ok") # accept THEN {"C17/listener-registration/" \o cls \o "/accepted=" \o Str(e.status = "ok")}
     ELSE IF ~accept THEN {}
     ELSE IF ~e.workers_ok THEN {"C17/worker-thread-terminated/by-listener-event/" \o cls}
-    ELSE IF e.ndispatch # 1 THEN {"C17/listener-dispatches=" \o Str(e.ndispatch) \o "/" \o cls}
+    ELSE IF e.ndispatch # 1 THEN {"C17/listener-dispatches=" \o (IF e.ndispatch > 2 THEN "many" ELSE Str(e.ndispatch)) \o "/" \o cls}
     ELSE LET d == e.dispatches[1] IN
          (IF d.thread # e.letter.thread THEN {"C17/listener-on-wrong-thread"} ELSE {})
          \cup (IF ~Small(idl) \/ d.event # idl[1] THEN {"C17/listener-delivered-with-different-id/" \o cls} ELSE {})
